@@ -11,3 +11,22 @@ def assert_repo_import():
 
     assert fdtdx.__file__.startswith(REPO_SRC), f"stale fdtdx imported from {fdtdx.__file__}"
     return fdtdx.__file__
+
+
+def install_arena_cache():
+    """optional speed-up (see native/arena_cache.c); silently skipped when the helper is missing"""
+    import ctypes
+    import os
+
+    so = os.path.join(os.path.dirname(os.path.dirname(os.path.abspath(__file__))), ".venv", "arena_cache.so")
+    if os.path.exists(so) and not os.environ.get("VERIF_NO_ARENA_CACHE"):
+        try:
+            lib = ctypes.CDLL(so, mode=ctypes.RTLD_GLOBAL)
+            lib.install_arena_cache()
+            return True
+        except Exception:  # noqa: BLE001
+            return False
+    return False
+
+
+install_arena_cache()
